@@ -18,6 +18,7 @@ import (
 	"reflect"
 	"regexp"
 	"sort"
+	"strconv"
 	"strings"
 )
 
@@ -484,6 +485,81 @@ func zeroBasic(fd *ast.FuncDecl) (flags, kinds []string) {
 	return
 }
 
+// zeroBasicReturns: for every branch of the `case *types.Basic` of zeroValue (cases of an inner switch or ifs of a chain), the
+// BasicInfo flags / basic kinds its condition mentions and the string literal it returns, in source order.
+func zeroBasicReturns(fd *ast.FuncDecl) (out [][2][]string) {
+	composite := map[string][]string{
+		"IsNumeric":   {"IsInteger", "IsFloat", "IsComplex"},
+		"IsOrdered":   {"IsInteger", "IsFloat", "IsString"},
+		"IsConstType": {"IsBoolean", "IsInteger", "IsFloat", "IsComplex", "IsString"},
+	}
+	names := func(n ast.Node) (ns []string) {
+		ast.Inspect(n, func(x ast.Node) bool {
+			sel, ok := x.(*ast.SelectorExpr)
+			if !ok || text(sel.X) != "types" {
+				return true
+			}
+			nm := sel.Sel.Name
+			switch {
+			case composite[nm] != nil:
+				ns = append(ns, composite[nm]...)
+			case nm != "Basic" && nm != "BasicInfo" && nm != "BasicKind" && nm != "TypeString" && nm != "Typ":
+				ns = append(ns, nm)
+			}
+			return true
+		})
+		return
+	}
+	ret := func(body []ast.Stmt) string {
+		res := "?"
+		for _, st := range body {
+			ast.Inspect(st, func(x ast.Node) bool {
+				if r, ok := x.(*ast.ReturnStmt); ok && res == "?" && len(r.Results) == 1 {
+					if bl, ok := r.Results[0].(*ast.BasicLit); ok && bl.Kind == token.STRING {
+						if v, err := strconv.Unquote(bl.Value); err == nil {
+							res = v
+						}
+					} else {
+						res = "expr:" + text(r.Results[0])
+					}
+				}
+				return true
+			})
+		}
+		return res
+	}
+	ast.Inspect(fd.Body, func(n ast.Node) bool {
+		cc, ok := n.(*ast.CaseClause)
+		if !ok || len(cc.List) != 1 || text(cc.List[0]) != "*types.Basic" {
+			return true
+		}
+		for _, st := range cc.Body {
+			ast.Inspect(st, func(x ast.Node) bool {
+				switch b := x.(type) {
+				case *ast.CaseClause:
+					if len(b.List) > 0 {
+						var ns []string
+						for _, e := range b.List {
+							ns = append(ns, names(e)...)
+						}
+						out = append(out, [2][]string{ns, {ret(b.Body)}})
+					}
+					return false
+				case *ast.IfStmt:
+					out = append(out, [2][]string{names(b.Cond), {ret(b.Body.List)}})
+					if b.Else != nil {
+						return true
+					}
+					return false
+				}
+				return true
+			})
+		}
+		return false
+	})
+	return
+}
+
 func zeroKinds(fd *ast.FuncDecl) (cases [][2]string, defaultPanics bool) {
 	var sw *ast.TypeSwitchStmt
 	ast.Inspect(fd.Body, func(n ast.Node) bool {
@@ -681,7 +757,7 @@ func main() {
 
 	})
 	wf := parse(repo + "/internal/wire/wire.go")
-	section(&b, "zeroValue kinds", "def zeroCases : List (String × String) := []\ndef zeroDefaultPanics : Bool := false\ndef zeroBasicFlags : List String := []\ndef zeroBasicKinds : List String := []\ndef basicKinds : List (String × List String) := []\n", func(w func(string, ...interface{})) {
+	section(&b, "zeroValue kinds", "def zeroCases : List (String × String) := []\ndef zeroDefaultPanics : Bool := false\ndef zeroBasicFlags : List String := []\ndef zeroBasicKinds : List String := []\ndef zeroBasicReturns : List (List String × String) := []\ndef basicKinds : List (String × List String) := []\n", func(w func(string, ...interface{})) {
 		var items []string
 		zc, zp := zeroKinds(findFunc(wf, "", "zeroValue"))
 		items = nil
@@ -694,6 +770,12 @@ func main() {
 		zf, zk := zeroBasic(findFunc(wf, "", "zeroValue"))
 		w("def zeroBasicFlags : List String := %s\n", lstr(zf))
 		w("def zeroBasicKinds : List String := %s\n", lstr(zk))
+		items = nil
+		for _, br := range zeroBasicReturns(findFunc(wf, "", "zeroValue")) {
+			items = append(items, fmt.Sprintf("(%s, %q)", lstr(br[0]), br[1][0]))
+		}
+		w("/-- the branches of the `*types.Basic` case, in order: flags / kinds tested, literal returned -/\n")
+		w("def zeroBasicReturns : List (List String × String) := [%s]\n", strings.Join(items, ", "))
 		items = nil
 		flagNames := []struct {
 			f types.BasicInfo
